@@ -270,7 +270,7 @@ def Pre (r b : State) : Prop :=
   r.status ≠ .expired ∧
   (b.status ≠ .repaired → b.tagged = false)
 
-theorem tags_status_iproj (p : Params) (d : Int) (evs : List TagEv) (s : State) :
+private theorem tags_status_iproj (p : Params) (d : Int) (evs : List TagEv) (s : State) :
     (evs.foldl (fun s e => tag p d e s) s).status = s.status ∧
     iproj (evs.foldl (fun s e => tag p d e s) s) = iproj s := by
   induction evs generalizing s with
@@ -281,16 +281,16 @@ theorem tags_status_iproj (p : Params) (d : Int) (evs : List TagEv) (s : State) 
       unfold iproj tag detectRec; grind
     rw [(ih _).1, (ih _).2]; exact h1
 
-theorem toggle_mono (p : Params) (s : State) : s.daysEmitting ≤ (toggle p s).daysEmitting := by
+private theorem toggle_mono (p : Params) (s : State) : s.daysEmitting ≤ (toggle p s).daysEmitting := by
   unfold toggle; grind
 
-theorem update_mono (p : Params) (s : State) : s.daysEmitting ≤ (update p s).daysEmitting := by
+private theorem update_mono (p : Params) (s : State) : s.daysEmitting ≤ (update p s).daysEmitting := by
   have t1 := toggle_mono p
   have tf := toggle_frame p
   unfold update endedAt
   grind
 
-theorem toggle_iproj (p : Params) (s s' : State) (h : iproj s = iproj s') :
+private theorem toggle_iproj (p : Params) (s s' : State) (h : iproj s = iproj s') :
     iproj (toggle p s) = iproj (toggle p s') := by
   unfold iproj at *
   simp only [Prod.mk.injEq] at h
@@ -447,7 +447,7 @@ theorem C03_emit_le_baseline_E (p : Params) (ev : Nat → List Ev) (N : Nat) :
   exact h
 
 /-- non-vacuity of the prefix lemma: an intermittent (2 on / 1 off) leak repaired by the program on
-day 3 has emitted 2 days, the same leak emits 7 days without LDAR -/
+day 3 has emitted 2 days, the same leak emits 6 days without LDAR -/
 example :
     let p : Params := { start := 0, nrd := 10, repairDelay := 1, repairable := true,
                         intermittent := true, activeDur := 2, inactiveDur := 1 }
